@@ -327,6 +327,31 @@ T = {
  'C18-8': ('C18', PROBER, 'parseT4T7Latency single exit: a malformed first gfet4t7 entry is remembered and scanning continues', 'a malformed gfet4t7 entry followed by a well-formed one: the later value is reported'),
  'C19-7': ('C19', CSUM, 'Marshal computes the CRC with a digest shared by the codec value; the mutex covers only its lazy creation', 'two overlapping Marshal calls on one codec: checksum of another payload (demo uses 16 goroutines)'),
  'C19-8': ('C19', CSUM, 'Unmarshal verifies the checksum, looking for the field in the last six bytes first', 'a payload whose last six bytes look like field 2047/fixed32 (inside a bytes field): wrongly rejected'),
+ # ---- wave 6 (as waves 4/5: the defect is one wrong detail inside a larger clean-up refactoring)
+ 'C01-11': ('C01', GRPCGCP, 'bound slot from getReadySubConnRef now also goes through the watermark / pool-growth logic (merged candidateSubConnRef + admitOrGrow)', 'K bound to a READY channel carrying ≥ watermark streams while the pool is below maxSize: the call for K is told to wait and the pool grows'),
+ 'C01-12': ('C01', GRPCGCP, 'getAndIncrementSubConnRef as a switch; the keyed case requires cmd == BOUND, UNBIND calls fall to least busy', 'an UNBIND for a bound key whose channel is not the least busy READY one (or not READY, fallback off)'),
+ 'C02-11': ('C02', GRPCGCP, 'detectUnresponsive replaced by serverResponded()+callFinished() with the decrement at the end; the stale-deadline early return exits before it', 'a client-deadline completion whose call started before another response on the same channel: the count stays one too high'),
+ 'C02-12': ('C02', GRPCGCP, "getLeastBusySubConnRef filters below-watermark channels with p.scRefs[:0] + append (shares the snapshot's array)", 'some but not all channels saturated, a saturated one listed first: it is lost from that picker for good'),
+ 'C03-11': ('C03', GRPCGCP, "extracted completeRefresh records the replacement with the reported state (READY) instead of the old connection's state", 'refresh of a channel that left READY before its replacement connected: READY channel missing from the picker, pool grows although it is idle'),
+ 'C03-12': ('C03', GRPCGCP, 'minStreamsSubConnRef as an index loop that never updates the running minimum', 'three or more READY channels ordered high, low, middle around the watermark: growth although a channel is below the watermark / call not on the least busy'),
+ 'C04-11': ('C04', GRPCGCP, 'tail of UpdateSubConnState: the becameReady/lostReady arm builds newGCPPicker directly; only the failing-flip arm goes through regeneratePicker', 'last READY connection leaves READY with nothing CONNECTING: TRANSIENT_FAILURE published with a queueing picker'),
+ 'C04-12': ('C04', GRPCGCP, 'recordTransition via counter(state) *uint64 and aggregate(); aggregate tests numTransientFailure before numConnecting', 'two connections, none READY, one TF and one CONNECTING: TRANSIENT_FAILURE published although a connection is connecting'),
+ 'C06-11': ('C06', GRPCGCP, 'enforceMinSize as a flag loop; `if failed := !gb.addSubConn(); failed { continue }` shadows the flag', 'first UpdateClientConnState with a failing connection factory: endless loop holding gb.mu'),
+ 'C06-12': ('C06', GRPCGCP, 'getReadySubConnRef fallback path moved to fallbackSubConnRef with explicit Unlocks; the errPicker exit returns without unlocking', 'fallback on, bound key on a non-READY channel, aggregate TF, pick on a stale gcpPicker: gb.mu stays write-locked'),
+ 'C07-11': ('C07', GRPCGCP, 'Pick split (pickedCall struct, resolveAffinity, callDone); the start time is stamped before getAndIncrementSubConnRef', 'a round-robin BIND pick that waits in Pick while another call gets a response on that channel, then ends with a client deadline: not counted'),
+ 'C07-12': ('C07', GRPCGCP, 'createSubConn helper + newSubConnRef constructor that no longer sets lastResp', 'the first unresponsive_calls completions of a new channel are client deadlines: refreshed at once whatever the detection period'),
+ 'C08-11': ('C08', GRPCGCP, 'the two fallback purge loops merged into dropFallbackLocked with an exclusive switch (home case first)', 'a key re-bound to its former stand-in, which then leaves READY: the stand-in purge is skipped, calls go to the non-READY channel'),
+ 'C08-12': ('C08', GRPCGCP, 'swap extracted to finishRefreshLocked; one loop over affinityMap also fixes fallbackMap[k]', 'a key unbound while in fallback (fallback entry without affinity entry), stand-in refreshed, key re-bound: stale stand-in, no SubConn available'),
+ 'C09-11': ('C09', GRPCGCP, 'Pick: the empty-picker check merged with scRef == nil and moved after getAndIncrementSubConnRef', 'a BIND pick on an empty picker while the aggregate is not TF: cursor advanced, slot incremented, then ErrNoSubConnAvailable'),
+ 'C09-12': ('C09', GRPCGCP, 'initializeConfig split; affinityByMethod uses break instead of continue for an entry without affinity section', 'a config with an affinity-less method entry before the BIND method entry: BIND calls go least busy'),
+ 'C14-11': ('C14', ME, 'setState+scheduleUnavailable merged into transition(); the pending timer is stopped only when an endpoint starts recovering', 'unavailable then available within one clock reading: the leftover timer marks the available endpoint unavailable'),
+ 'C14-12': ('C14', ME, 'future becomes *endpoint; delayedSwitch (method value) no longer re-resolves the target by name', 'pending delayed switch whose target is dropped (or replaced) by SetEndpoints before the timer fires'),
+ 'C15-11': ('C15', GRPCGCP, 'UpdateMultiEndpoints as phases with a single exit; removeObsoletePools and syncAvailability also run after a failed dial', 'an update whose dial fails and which drops an endpoint the current MultiEndpoints still use: its pool is closed and deleted'),
+ 'C15-12': ('C15', GRPCGCP, 'upsertMultiEndpoints returns obsolete = len(mes) − len(opts) computed before the insertions; prune runs only if obsolete > 0', 'an update that removes k MultiEndpoints and adds ≥ k new names (a rename): the stale MultiEndpoint stays routable'),
+ 'C17-11': ('C17', GRPCGCP, "methodAffinities pre-filters entries in place (entries[:0] + append) on the clone's own Method slice", 'a method entry without affinity section placed before one that has it: gb.cfg.Method no longer equals the supplied list'),
+ 'C17-12': ('C17', GRPCGCP, 'decodeAPIConfig wraps the protojson error in an if-scoped err that shadows the named result: returns (nil, nil)', 'any JSON that protojson rejects: accepted with a nil ApiConfig, balancer runs on defaults'),
+ 'C20-11': ('C20', GRPCGCP, 'the two push loops merged into pushAddrs(map, addrs) walking the VALUES and using scRef.subConn', 'refresh in flight and a resolver update: the old SubConn is pushed twice, the replacement keeps the old list'),
+ 'C20-12': ('C20', GRPCGCP, 'addrs threaded as a parameter; newSubConn reads gb.addrs before taking gb.mu', 'picker-initiated growth that snapshots the list, blocks behind a resolver update and then creates from the stale snapshot'),
 }
 
 ENV = dict(os.environ, GOFLAGS='-mod=mod', GOPROXY='off', GOSUMDB='off', GOTOOLCHAIN='local')
